@@ -88,6 +88,7 @@ def _run(cmd, cwd=LEAN, timeout=3600, env=None):
 class LeanState:
     def __init__(self):
         self.tables_changed = False
+        self.tables_unavailable = []
         self.driver_ok = False
         self.proofs_ok = False
         self.build_log = ""
@@ -102,7 +103,13 @@ def lean_build(clean=False) -> LeanState:
     fcntl.flock(lock, fcntl.LOCK_EX)
     try:
         from . import gen_tables
-        st.tables_changed = gen_tables.regenerate()
+        try:
+            st.tables_changed = gen_tables.regenerate()
+        except Exception as e:  # noqa
+            raise Infra(f"table translator cannot run: {type(e).__name__}: {e}")
+        st.tables_unavailable = list(gen_tables.UNAVAILABLE)
+        for u in st.tables_unavailable:
+            log("table not translatable from the working tree, tie falls back to the correspondence:", u)
         if clean:
             _run(["rm", "-rf", os.path.join(LEAN, ".lake", "build")])
         rc, out = _run(["lake", "build", "p0fdrv"])
